@@ -3,32 +3,52 @@
 (* L2 monitors for C19 and C20 over observation records only                 *)
 (* (DESIGN.md Appendix A).  A record:                                        *)
 (*   ev    Create | Activate | Close | Service | Discovery | ChannelChange | *)
-(*         TimePasses                                                        *)
+(*         Tick (d units of time pass; an event of the environment)          *)
 (*   conn  the connection the request was sent on, chan its current secure   *)
 (*         channel id, tok the authentication token (1.. = token returned by *)
-(*         the k-th CreateSession, 8 forged, 0 null), beyond = more than the *)
-(*         session timeout has elapsed since the session's last request,     *)
+(*         the k-th CreateSession, 8 forged, 0 null), tmo = the revised      *)
+(*         session timeout CreateSession returned (0 = none, n = between n   *)
+(*         and n+1 units),                                                   *)
 (*   class ok | fault | none,  effect = the observable state (value of the   *)
 (*         variable, number of subscriptions) changed.                       *)
 (* The ghost is updated from observed responses of the session services and  *)
-(* from the environment events only.                                         *)
+(* from the environment events only.  Timed out (the statement: a refused    *)
+(* request changes nothing, so it cannot restart the idle time): more than   *)
+(* the timeout has passed since the session's last service request that was  *)
+(* carried out or its last session-service request; once a request finds the *)
+(* session timed out it stays timed out.                                     *)
 (***************************************************************************)
 EXTENDS Integers, Sequences, FiniteSets, TLC
 
 Toks == 1..4        \* tokens a CreateSession can have returned; the forged and the null token are never known
-Unknown == [known |-> FALSE, act |-> FALSE, conn |-> 0, chan |-> 0, closed |-> FALSE, to |-> FALSE, gen |-> 0]
+Unknown == [known |-> FALSE, act |-> FALSE, conn |-> 0, chan |-> 0, closed |-> FALSE, dead |-> FALSE, tmo |-> 0, idle |-> 0, gen |-> 0]
 M19Init == [t \in Toks |-> Unknown]
+
+\* the request e finds its session timed out
+Expired(S, e) == e.tok \in Toks /\ S[e.tok].known /\ ~S[e.tok].closed /\ S[e.tok].tmo > 0 /\ S[e.tok].idle > S[e.tok].tmo
+Dead(S, e) == e.tok \in Toks /\ (S[e.tok].dead \/ Expired(S, e))
 
 \* ghost update shared by both monitors
 Ghost(S, e) ==
-  IF e.fail # "none" \/ e.tok \notin Toks THEN S
+  IF e.fail # "none" THEN S
+  ELSE IF e.ev = "Tick"
+  THEN [t \in Toks |-> IF S[t].known /\ S[t].tmo > 0
+                        THEN [S[t] EXCEPT !.idle = IF @ + e.d > S[t].tmo THEN S[t].tmo + 1 ELSE @ + e.d] ELSE S[t]]
+  ELSE IF e.tok \notin Toks THEN S
   ELSE IF e.ev = "Create" /\ e.class = "ok"
-  THEN [S EXCEPT ![e.tok] = [known |-> TRUE, act |-> FALSE, conn |-> e.conn, chan |-> e.chan, closed |-> FALSE, to |-> FALSE, gen |-> 0]]
-  ELSE IF e.ev = "Activate" /\ e.class = "ok"
-  THEN [S EXCEPT ![e.tok].act = TRUE, ![e.tok].conn = e.conn, ![e.tok].chan = e.chan, ![e.tok].gen = @ + 1]
-  \* a refused ActivateSession leaves the ghost alone: the statement does not require de-activation
+  THEN [S EXCEPT ![e.tok] = [known |-> TRUE, act |-> FALSE, conn |-> e.conn, chan |-> e.chan, closed |-> FALSE, dead |-> FALSE,
+                             tmo |-> e.tmo, idle |-> 0, gen |-> 0]]
+  ELSE IF ~S[e.tok].known THEN S
+  ELSE IF e.ev = "Activate"
+  THEN LET dd == Dead(S, e)
+           \* a session service request counts as activity of a live session whatever its outcome (the statement is silent);
+           \* a refused ActivateSession leaves the rest alone: the statement does not require de-activation
+           S1 == [S EXCEPT ![e.tok].dead = dd, ![e.tok].idle = IF dd THEN @ ELSE 0]
+       IN IF e.class = "ok" THEN [S1 EXCEPT ![e.tok].act = TRUE, ![e.tok].conn = e.conn, ![e.tok].chan = e.chan, ![e.tok].gen = @ + 1] ELSE S1
+  ELSE IF e.ev = "Service"
+  THEN LET dd == Dead(S, e)
+       IN [S EXCEPT ![e.tok].dead = dd, ![e.tok].idle = IF ~dd /\ e.class = "ok" THEN 0 ELSE @]
   ELSE IF e.ev = "Close" /\ e.class = "ok" THEN [S EXCEPT ![e.tok].closed = TRUE]
-  ELSE IF e.ev = "TimePasses" /\ e.beyond THEN [S EXCEPT ![e.tok].to = TRUE]
   ELSE S
 
 \* why a service request must be refused ("" = it may be carried out)
@@ -38,7 +58,7 @@ Refuse(S, e) ==
   ELSE IF ~S[e.tok].act THEN "session-not-activated"
   ELSE IF S[e.tok].conn # e.conn THEN "session-of-another-connection"
   ELSE IF S[e.tok].chan # e.chan THEN "session-bound-to-another-secure-channel"
-  ELSE IF S[e.tok].to \/ e.beyond THEN "session-timed-out"
+  ELSE IF Dead(S, e) THEN "session-timed-out"
   ELSE ""
 
 Mon19Step(S, e) ==
@@ -61,7 +81,7 @@ Mon19Step(S, e) ==
 M20Init == M19Init
 Mon20Step(S, e) ==
   LET t == e.tok
-      usable == t \in Toks /\ S[t].known /\ ~S[t].closed /\ ~S[t].to /\ ~e.beyond
+      usable == t \in Toks /\ S[t].known /\ ~S[t].closed /\ ~Dead(S, e)
                 /\ S[t].conn = e.conn /\ S[t].chan = e.chan      \* on the channel the session is bound to
       bound == e.kind \in {"userenc", "x509"}
       v == IF e.fail # "none" \/ e.ev # "Activate" \/ t \notin Toks \/ ~S[t].known THEN {}
